@@ -433,7 +433,9 @@ func execRelayRules(k *sim.Kernel, pl RelayRulesPlan) {
 					freshTask = false // an earlier connection is still open (slow origin): "nothing in flight" is not certain
 				}
 			}
-			if !m.static && freshTask && res.Done && started && started2 && res.ErrorCode() != 0 && len(rr.Origins)-before == 0 {
+			// (with an auto-stop window and no consumer attached right now, whether "a consumer has been present within the
+			// window" holds depends on per-tick sampling of consumers that came and went: not judged here)
+			if !m.static && freshTask && (op.AutoStop < 0 || m.subs > 0) && res.Done && started && started2 && res.ErrorCode() != 0 && len(rr.Origins)-before == 0 {
 				k.Violate("C17.api-start-refused", "start_relay_pull (retry=%d autostop=%d) after a stop answered error_code=%d (%s) and made no attempt although the pull is enabled, the stream has no input, nothing is in flight and the new task's budget is unused (model: %s)", op.Retry, op.AutoStop, res.ErrorCode(), clip(string(res.Body), 120), strings.Join(m.log, "; "))
 			}
 			if m.static && (res.ErrorCode() == 0) != started && (res.ErrorCode() == 0) != started2 {
